@@ -16,7 +16,8 @@ variable {α : Type} [Add α] [Sub α] [Mul α] [Div α] [Neg α] [OfNat α 0] [
 
 /-- attributes of the kernel object read by the weight programs -/
 def toOps (P : Grad.Params α) : KernelOps.Params α :=
-  { bandwidth := P.L, exponent := P.q, p := P.p, constMix := P.cmix, power := P.power, dim := 0, eps := P.eps }
+  { bandwidth := P.L, exponent := P.q, p := P.p, constMix := P.cmix, power := P.power, dim := 0, eps := P.eps,
+    baseBandwidth := 0 }
 
 /-- `∇_v k(u, v)` of the L2 kernel through the regenerated program: `W · (v − u)` with `W` computed from
 `torch.cdist(xm, zm)` (the Euclidean distance of the transformed points). -/
